@@ -88,7 +88,7 @@ def compare_rotated(before, after, k, ctx, where, report):
                 ok = False
                 break
     ft1 = feature_table(after)
-    back = lambda p: ("gap", (p[1] - kk) % n) if isinstance(p, tuple) else (p - kk) % n
+    back = lambda p: (p if p[0] == "remote" else ("gap", (p[1] - kk) % n)) if isinstance(p, tuple) else (p - kk) % n
     keyed0 = {key: v for key, v in ft0.items() if key[0] == "uid"}
     keyed1 = {key: v for key, v in ft1.items() if key[0] == "uid"}
     plain0 = [v for key, v in ft0.items() if key[0] != "uid"]
@@ -349,7 +349,7 @@ def compare_reverse_complement(before, after, ctx, where, report, check_seq=True
         elif la1[t] != list(v)[::-1]:
             report("rc-letter-annotations", "%s: per-letter track %r is not reversed with the sequence (%r -> %r)" % (where, t, list(v)[:8], la1[t][:8]), n=n)
     ft1 = feature_table(after)
-    mirror = lambda p: ("gap", (n - p[1]) % n) if isinstance(p, tuple) else (n - 1 - p) % n
+    mirror = lambda p: (p if p[0] == "remote" else ("gap", (n - p[1]) % n)) if isinstance(p, tuple) else (n - 1 - p) % n
 
     def judge_pair(key, f0, f1):
         t0, i0, q0, p0 = f0
@@ -360,7 +360,7 @@ def compare_reverse_complement(before, after, ctx, where, report, check_seq=True
             if p0 != p1:
                 report("rc-feature-location", "%s: feature %s location %r -> %r" % (where, key, p0, p1), n=n)
             return
-        stranded = all(st in (1, -1) for _, _, st in p0)
+        stranded = all(x[2] in (1, -1) for x in p0)
         d0 = denote({"parts": p0}, n)
         d1 = denote({"parts": p1}, n)
         exp = [(mirror(p), (-st if st else st)) for p, st in d0]
@@ -392,7 +392,7 @@ def compare_reverse_complement(before, after, ctx, where, report, check_seq=True
             if p0 is None:
                 hit = f1
                 break
-            stranded = all(st in (1, -1) for _, _, st in p0)
+            stranded = all(x[2] in (1, -1) for x in p0)
             exp = [(mirror(p), (-st if st else st)) for p, st in denote({"parts": p0}, n)]
             d1 = denote({"parts": p1}, n)
             if [st for _, st in d1] == [st for _, st in exp] and same_denotation(exp, d1, n, stranded=stranded):
